@@ -339,6 +339,26 @@ inline void randomCase(Ctx& c, long idx)
     }
     // the same frame again on the same decoder: unsegmented decoding is history independent
     ck.check(dec, f, "random frame repeated", sb);
+    if (r.chance(1, 6))
+    {
+        // a frame that reads as a well-formed message under BOTH layouts: a valid TECMP frame whose first byte (the CMP
+        // version) is not 0 and whose bytes 20..23 (inside the TECMP timestamp) are a CMP flags / payload type / length
+        // triple that tiles the frame. With a non-zero first byte it is a CMP frame and nothing else.
+        Bytes d = genTecmpFrame(r);
+        if (d.size() > 28)
+        {
+            d[0] = r.pick<uint8_t>({1, 2, 3, 0x10, 0xFF});
+            d[20] = static_cast<uint8_t>(r.below(4)) & 0x03;  // recalc / insync only: no error flag, no segment bits
+            d[21] = r.chance(1, 2) ? static_cast<uint8_t>(r.range(3, 255)) : static_cast<uint8_t>(r.range(1, 2));
+            size_t len = d.size() - 24;
+            if (r.chance(1, 3))
+                len -= r.below(std::min<size_t>(len, 4));
+            wire::set16(d.data() + 22, static_cast<uint16_t>(len));
+            ASAM::CMP::Decoder fresh;
+            ck.check(r.chance(1, 2) ? dec : fresh, d, "frame that is also a well-formed TECMP frame", mix64(0xD0A1, d[5] * 256u + d[21]));
+            c.count("frames_well_formed_under_both_layouts");
+        }
+    }
     c.sample("random frame mt=" + std::to_string(s.mt) + " msgs=" + std::to_string(k) + " frame=" + hex(f, 120), 4);
 }
 
